@@ -43,7 +43,8 @@ def make(x, who):
     # a valid result of f(x) computed by writer `who`: self-consistent, but its bytes (and length) differ from
     # writer to writer, so that a file mixing two writers' output cannot be a valid result
     # (x == 5: large enough to be written with several write() calls)
-    return ["res", x, who, chr(65 + who % 26) * ((150000 if x == 5 else 4000 if x % 2 else 30) + who % 977)]
+    # (x == 3: all writers' results have ONE length and differ in content only - a file mixing two of them is a valid pickle)
+    return ["res", x, who, chr(65 + who % 26) * ((150000 if x == 5 else 4000 if x % 2 else 30) + (who % 977 if x != 3 else 100000))]
 
 
 def valid(v, x=None):
@@ -215,11 +216,11 @@ def run_threads(case, ctx):
         ctx.count("thread_storm_preemptions", res["yields"])
         ctx.maxi("thread_storm_preemption_points", res["points"])
         for k, v in res["counts"].items():
-            if k.startswith(("disturber_raised", "shelved_")):
+            if k.startswith(("disturber_raised", "shelved_", "rounds_with_identically", "result_files_read_back", "loads_joblib_recovered_from")):
                 ctx.count(k, v)
         ctx.sig(("threads", cfg["seed"]))
         for key, n in res["errs"].items():
-            ctx.violation(("wrong-value:threads" if key == "wrong-value" else "raises:threads:" + key),
+            ctx.violation(("wrong-value:threads" if key == "wrong-value" else "mixture:threads" if key.startswith("result-file") else "mixture:threads:" + key if key.startswith("reader-saw") else "raises:threads:" + key),
                           f"threads of one process on one cache directory ({n}x in 10 rounds): {res['witness'].get(key)}", dict(cfg=cfg, witness=res["witness"].get(key)))
         if case["i"] % 7 == 0:
             ctx.sample(dict(kind="threads", cfg=cfg, counts=res["counts"]))
